@@ -73,7 +73,7 @@ def gen_contents(rng, blksize, n, big=False):
     sizes = [0, 1, b - 1, b, b + 1, 2 * b - 1, 2 * b, 2 * b + 1, 3 * b + rng.randrange(0, b)]
     sizes = [s for s in sizes if 0 <= s <= 140000]
     if big:
-        sizes += [5 * b + 3, 40000 + rng.randrange(100), 65535, 65536, 65537, 131073]
+        sizes += [5 * b + 3, 40000 + rng.randrange(100), 65535, 65536, 65537, 131073, 4096, 8192, 12288, 16384]
     out = []
     seen = set()
     while len(out) < n:
@@ -82,19 +82,40 @@ def gen_contents(rng, blksize, n, big=False):
         if (s, k) in seen:
             continue
         seen.add((s, k))
-        out.append([s, k])
-    return out
+        spec = [s, k]
+        if s > 1 and rng.random() < 0.3:
+            spec.append(rng.choice(["zeros", "ztail", "zhead", "zmid", "ff", "text"]))
+        out.append(spec)
+    # distinct contents are required (each content stands for one cid)
+    from . import world as _w
+    seen_bytes = set()
+    uniq = []
+    for spec in out:
+        b = _w.make_content(spec)
+        if b in seen_bytes:
+            spec = spec[:2]
+            b = _w.make_content(spec)
+            if b in seen_bytes:
+                continue
+        seen_bytes.add(b)
+        uniq.append(spec)
+    while len(uniq) < n:
+        spec = [len(uniq) + 2, 201 + len(uniq)]
+        if _w.make_content(spec) not in seen_bytes:
+            seen_bytes.add(_w.make_content(spec))
+            uniq.append(spec)
+    return uniq
 
 
 PROFILES = {
     # weights of operation kinds per property profile
     "C01": dict(store=8, store_nopid=1, retrieve=5, delete=2, tag=1, div=1, hexdigest=1, smeta=1, dmeta=1, restart=1),
-    "C02": dict(store=8, store_nopid=1, hexdigest=6, delete=2, restart=1, retrieve=1),
-    "C03": dict(store=7, tag=6, delete=3, div=1, store_nopid=1, retrieve=1),
+    "C02": dict(store=8, store_nopid=1, hexdigest=6, delete=2, restart=1, retrieve=1, raw_bad=2),
+    "C03": dict(store=7, tag=6, delete=3, div=1, store_nopid=1, retrieve=1, raw_bad=1),
     "C04": dict(store=7, delete=5, div=3, tag=2, smeta=1, dmeta=1, store_nopid=1, retrieve=2),
-    "C05": dict(store=6, store_nopid=2, tag=5, delete=5, div=2, smeta=1, dmeta=1, retrieve=1, hexdigest=1, restart=1),
-    "C06": dict(store=9, div=7, store_nopid=3, delete=2, tag=1),
-    "C11": dict(smeta=8, rmeta=4, dmeta=5, delete=3, store=3, restart=1),
+    "C05": dict(store=6, store_nopid=2, tag=5, delete=5, div=2, smeta=1, dmeta=1, retrieve=1, hexdigest=1, restart=1, raw_bad=2),
+    "C06": dict(store=9, div=7, store_nopid=3, delete=2, tag=1, raw_bad=1),
+    "C11": dict(smeta=8, rmeta=4, dmeta=5, delete=3, store=3, restart=1, raw_bad=1),
     "C16": dict(store=6, store_nopid=1, tag=3, delete=4, div=1, smeta=4, rmeta=2, dmeta=3, retrieve=1, hexdigest=1),
     "C17": dict(store=4, store_nopid=3, tag=1, delete=1, smeta=2, raw_bad=10, raw_ro=5, restart=1),
     "C18": dict(store=5, tag=2, delete=3, smeta=5, rmeta=2, dmeta=3, retrieve=2, store_nopid=1),
@@ -174,13 +195,21 @@ def gen_seq_program(seed, prof, tier="quick", mp=None, length=None):
     if prof == "C14":
         from . import cfgspace
         cfg = cfgspace.gen_create_cfg(rng)
-        if rng.random() < 0.2:
-            cfg["store_depth"] = str(cfg["store_depth"])
+        if rng.random() < 0.25:
+            cfg["store_depth"] = rng.choice([str(cfg["store_depth"]), "0%d" % cfg["store_depth"], " %d" % cfg["store_depth"]])
+        if rng.random() < 0.15:
+            cfg["store_width"] = rng.choice([str(cfg["store_width"]), "0%d" % cfg["store_width"], "%d " % cfg["store_width"]])
     knobs = gen_knobs(rng, mp=mp)
     if prof == "C18":
         from . import adversarial
         pids = adversarial.gen_ids(rng, rng.randint(2, 3))
         formats = [cfg["store_metadata_namespace"]] + adversarial.gen_ids(rng, 2)
+        if rng.random() < 0.15:
+            # (pid, format) pairs whose concatenations coincide: x+y with z, and x with y+z
+            x, y, z = adversarial.gen_id(rng)[:40], adversarial.gen_id(rng)[:20], adversarial.gen_id(rng)[:20]
+            if x and y and z and x + y != x:
+                pids = [x + y, x] + [p for p in pids[:1] if p not in (x + y, x)]
+                formats = [cfg["store_metadata_namespace"], z, y + z]
         if rng.random() < 0.15:
             # identifiers that happen to be (relative) paths of existing files with equal content
             knobs["chdir"] = True
@@ -209,7 +238,7 @@ def gen_seq_program(seed, prof, tier="quick", mp=None, length=None):
         length = rng.randint(8, 40) if tier == "quick" else rng.randint(10, 120)
     ops = []
     npids = len(pids)
-    if prof == "C17":
+    if "raw_bad" in weights:
         pids.append("never-bound:pid")  # index npids: only the invalid-call grammar refers to it
     for _ in range(length):
         k = pick_weighted(rng, weights)
